@@ -262,6 +262,22 @@ class HedSchemaTagSection(HedSchemaSection):
 
         return list(result.values())
 
+    @staticmethod
+    def _parents_first_order(entries):
+        """ Return the entries depth first (each tag followed by its descendants), siblings in their given order. """
+        children = {}
+        for entry in entries:
+            children.setdefault(entry.long_tag_name.rpartition('/')[0].casefold(), []).append(entry)
+        known = {entry.long_tag_name.casefold() for entry in entries}
+        ordered = []
+        pending = [entry for entry in reversed(entries)
+                   if entry.long_tag_name.rpartition('/')[0].casefold() not in known]
+        while pending:
+            entry = pending.pop()
+            ordered.append(entry)
+            pending.extend(reversed(children.pop(entry.long_tag_name.casefold(), [])))
+        return ordered
+
     def _finalize_section(self, hed_schema):
         # Find the attributes with the inherited property
         attribute_section = hed_schema.attributes
@@ -283,6 +299,10 @@ class HedSchemaTagSection(HedSchemaSection):
             if node.has_attribute(HedKey.ExtensionAllowed):
                 # Make sure we sort / characters to the front.
                 values.sort(key=lambda x: x.long_tag_name.replace("/", "\0"))
+            else:
+                # Keep the written order, but every tag must directly follow its parent's subtree: a rooted library
+                # tag is added after the whole group, and formats that nest by line order would re-parent it.
+                values[:] = self._parents_first_order(values)
 
         # Sort ones without inLibrary to the end, and then sort library ones at the top.
         split_list.sort(key=lambda x: (x[0].has_attribute(HedKey.InLibrary, return_value=True) is None,
